@@ -23,6 +23,7 @@ type freshEngine struct {
 	cg       *CG
 	mutators map[string]bool
 	freshRet map[*Fn]int // 0 unknown, 1 yes, 2 no
+	argOrFresh map[*Fn]bool
 }
 
 func (fe *freshEngine) isEntryLike(t types.Type) bool {
@@ -98,15 +99,34 @@ func (fe *freshEngine) freshExpr(fn *Fn, e ast.Expr, facts Facts, depth int) boo
 			if t := p.ByObj[cf]; t != nil && fe.returnsFresh(t, depth) {
 				return true
 			}
-			// fresh-or-argument: interface method PreSign and similar — result fresh if every entry-like argument is fresh
-			if cf.Name() == "PreSign" && len(x.Args) == 1 && fe.freshExpr(fn, x.Args[0], facts, depth+1) {
-				ok := true
-				for _, t := range fe.cg.Implementers(cf) {
-					if !fe.returnsArgOrFresh(t) {
-						ok = false
+			// fresh-or-argument: the result is fresh or one of the entry-like arguments — then it is fresh when
+			// every entry-like argument is
+			var targets []*Fn
+			if t := p.ByObj[cf]; t != nil {
+				targets = []*Fn{t}
+			} else {
+				targets = fe.cg.Implementers(cf)
+			}
+			if len(targets) > 0 && depth < 3 {
+				ok, anyEntry := true, false
+				for _, a := range x.Args {
+					if fe.isEntryLike(p.TypeOf(fn, a)) {
+						anyEntry = true
+						if !fe.freshExpr(fn, a, facts, depth+1) {
+							ok = false
+						}
 					}
 				}
-				return ok
+				if ok && anyEntry {
+					for _, t := range targets {
+						if !fe.returnsArgOrFresh(t) {
+							ok = false
+						}
+					}
+					if ok {
+						return true
+					}
+				}
 			}
 		}
 	}
@@ -116,7 +136,23 @@ func (fe *freshEngine) freshExpr(fn *Fn, e ast.Expr, facts Facts, depth int) boo
 // returnsArgOrFresh: every success return yields the first parameter (possibly reassigned from a fresh value) or a fresh value.
 func (fe *freshEngine) returnsArgOrFresh(fn *Fn) bool {
 	p := fe.p
-	par := paramObjAny(fn, 0)
+	if v, ok := fe.argOrFresh[fn]; ok {
+		return v
+	}
+	if fe.argOrFresh == nil {
+		fe.argOrFresh = map[*Fn]bool{}
+	}
+	fe.argOrFresh[fn] = false // recursion guard
+	pars := map[types.Object]bool{}
+	for i := 0; ; i++ {
+		po := paramObjAny(fn, i)
+		if po == nil {
+			break
+		}
+		if fe.isEntryLike(po.Type()) {
+			pars[po] = true
+		}
+	}
 	fl := fe.flow(fn)
 	ok := true
 	fl.Exits(func(_ *cfgBlk, ret *ast.ReturnStmt, at Facts) {
@@ -127,13 +163,19 @@ func (fe *freshEngine) returnsArgOrFresh(fn *Fn) bool {
 		if isNilIdent(e) {
 			return
 		}
-		if id, isId := e.(*ast.Ident); isId && p.ObjOf(fn, id) == par {
+		if id, isId := e.(*ast.Ident); isId && pars[p.ObjOf(fn, id)] {
 			return
 		}
-		if !fe.freshExpr(fn, e, at, 1) {
+		// treat the entry-like parameters as fresh inside the helper: the result is then "fresh or argument"
+		at2 := at.Clone()
+		for po := range pars {
+			at2["fresh|"+p.ID(po)] = true
+		}
+		if !fe.freshExpr(fn, e, at2, 1) {
 			ok = false
 		}
 	})
+	fe.argOrFresh[fn] = ok
 	return ok
 }
 
@@ -421,10 +463,19 @@ func runC05(c *Ctx, r *Report) {
 	r.Floor("R-C05.2", "stores to OrderedMap.keys in its methods", nKeyStores, 1)
 	entriesF := p.Field("", "IPFSLog", "Entries")
 	nEnt := 0
-	for _, fn := range p.Fns {
-		if fn.Pkg.PkgPath != p.Mod {
-			continue
+	inlinedSomewhere := map[string]bool{}
+	for _, fn0 := range p.Fns {
+		if fn0.Pkg.PkgPath == p.Mod && fn0.Parent == nil {
+			for _, n := range p.Inl(fn0).Inlined {
+				inlinedSomewhere[n] = true
+			}
 		}
+	}
+	for _, fn0 := range p.Fns {
+		if fn0.Pkg.PkgPath != p.Mod || inlinedSomewhere[fn0.Name] {
+			continue // an exclusive helper is analysed inside its caller's view
+		}
+		fn := p.Inl(fn0)
 		fl := &Flow{P: p, Fn: fn, Entry: Facts{}}
 		fl.Edge = func(cond ast.Expr, taken bool, f Facts) {
 			for _, a := range splitCond(cond, taken) {
@@ -481,7 +532,7 @@ func runC05(c *Ctx, r *Report) {
 	}
 	r.Floor("R-C05.2", "reassignments of IPFSLog.Entries", nEnt, 1)
 	// insertion only of absent keys in difference
-	diff := p.Func("", "", "difference")
+	diff := p.FuncI("", "", "difference")
 	absent := map[types.Object]string{}
 	walkNoLit(diff.Body, func(n ast.Node) bool {
 		if as, ok := n.(*ast.AssignStmt); ok && len(as.Lhs) == 2 && len(as.Rhs) == 1 {
